@@ -100,7 +100,7 @@ CHECKS: Dict[str, Any] = {
          "the blockMeshDict reader is correct"], ["norders", "k"]),
     "C12": EngineCheck("C12", "lifecycle_check", "fault_enumeration",
         "one evaluation = one simulated history over {add, delete, assemble, move vertices (of operations and of a shape's centre / radius point), "
-        "backport, clear, modify_patch, set_default_patch, merge_patches, write, write of the same entities through a second Mesh object} with injected faults as first-class steps (SimCrash at the k-th internal step of assemble followed by clear; "
+        "backport, clear, translate an operation, modify_patch, set_default_patch, merge_patches, write, write of the same entities through a second Mesh object} with injected faults as first-class steps (SimCrash at the k-th internal step of assemble followed by clear; "
         "open/write/close errors of write followed by a retry; a write that fails in grading followed by chop+clear+write). quick: fault points "
         "sampled; thorough: for every sampled history, every internal step of its first assembly and open / each of the 9 write calls / close of "
         "its first write are enumerated. distinct_nontrivial counts distinct (history shape, event-log digest) among executions with at least "
